@@ -1,6 +1,8 @@
 (* DerTree.v — DER value trees: class / constructed / tag number + content or
-   children, [emit] to bytes, a generic strict-DER [parse] back to trees, and
-   the two laws  parse (emit d) = d  and  emit (parse bs) = bs.
+   children, [emit] to bytes, a generic strict-DER [parse] back to trees, the
+   law  parse (emit d ++ rest) = (d, rest)  for every well-formed tree, and
+   well-formedness of everything the reader returns.  (The converse,
+   emit (parse bs) = bs, is not proved here.)
    Used by C04 and C05 (X.509 objects are built as trees and emitted; the
    parsers read trees).  Tag numbers are the low-tag form only (< 31): every
    tag in X.509 certificates, CSRs and CRLs is.  Lengths are unbounded in the
